@@ -174,6 +174,56 @@ def check_in_context(ctx, L, tname, v, other_types):
                 return
 
 
+def check_class_flags(ctx, L, tname, masks):
+    """The class-level flags (TPMA_OBJECT.sign ...) are values of the type like any other: printed as an event value they
+    show their own bits; combining them in place (`attrs |= TPMA_OBJECT.sign`) leaves the declared flags as they are."""
+    import operator
+
+    from tpmstream.common.event import MarshalEvent
+    from tpmstream.common.path import Path, PathNode
+    from tpmstream.io.pretty import Pretty
+
+    T = O.lib_type(tname)
+    bits = 8 * L.width(tname)
+    path = Path(PathNode("")) / PathNode("word")
+    names = list(masks)
+    for name in names:
+        flag = ctx.guard(lambda: getattr(T, name), "C17:class-flag", {"type": tname, "flag": name})
+        if flag is None or not isinstance(flag, T):
+            continue
+        v = masks[name]
+        payload = {"type": tname, "value": v, "class_flag": name}
+        ctx.case((tname, "class-flag", name), True, sample={"type": tname, "class_level_flag": name, "value": hex(v)} if name == names[0] else None)
+        ctx.count("class-level-flags")
+        if int(flag) != v:
+            ctx.problem("C17:class-flag:value", f"{tname}.{name} carries {int(flag):#x}, its mask is {v:#x}", payload)
+            return
+        rows = ctx.guard(lambda: list(Pretty.unmarshal([MarshalEvent(path, T, flag)])), "C17:pretty", payload)
+        if rows is None:
+            return
+        judge_rows(ctx, tname, v, bits, masks, rows, payload, "word", 2, where=f" (the class-level flag {tname}.{name} as event value)")
+    for sym, op in (("|=", operator.ior), ("&=", operator.iand), ("^=", operator.ixor)):
+        for a, b in zip(names, names[1:] + names[:1]):
+            x = ctx.guard(lambda: getattr(T, a), "C17:class-flag", {"type": tname, "flag": a})
+            y = ctx.guard(lambda: getattr(T, b), "C17:class-flag", {"type": tname, "flag": b})
+            if x is None or y is None:
+                continue
+            payload = {"type": tname, "value": masks[a], "class_flag": a, "op": sym}
+            r = ctx.guard(lambda: op(x, y), "C17:inplace", payload)
+            want = op(masks[a], masks[b])
+            ctx.count("class-level-flag-inplace-ops")
+            if r is not None and int(r) != want:
+                ctx.problem("C17:inplace:result", f"attrs = {tname}.{a}; attrs {sym} {tname}.{b} gives {int(r):#x}, expected {want:#x}", payload)
+                return
+            now = live_masks(T)
+            if now != masks:
+                diff = {k: (hex(masks.get(k, 0)), hex(now.get(k, 0)) if isinstance(now.get(k, 0), int) else repr(now.get(k))) for k in set(masks) | set(now) if masks.get(k) != now.get(k)}
+                ctx.problem("C17:inplace:masks-changed", f"after attrs = {tname}.{a}; attrs {sym} {tname}.{b} the declared masks of {tname} changed: {diff}", payload)
+                return
+    full = (1 << bits) - 1
+    check_word(ctx, L, tname, full & 0x5A5A5A5B, masks)
+
+
 def check_cli_terminal(ctx, L, tname, v, columns, masks=None):
     """The same word printed by `tpmstream convert` with its output on a (pseudo) terminal `columns` wide: the terminal may
     wrap long rows, the program must still print every row completely."""
@@ -256,6 +306,8 @@ def run_shard(ctx):
                 check_in_context(ctx, L, t, v, types)
 
         ctx.run_plain(loop, f"words:{t}")
+        if (i + 5) % ctx.nshards == ctx.shard:
+            ctx.run_plain(lambda t=t, masks=masks: check_class_flags(ctx, L, t, masks), f"class-flags:{t}")
         if i % ctx.nshards == ctx.shard:
             full = (1 << bits) - 1
             for columns, v in ((180, full), (150, full & 0x5A5A5A5B), (100, 1), (80, full)):
@@ -276,7 +328,9 @@ def finalize(merged):
 
 def replay(ctx, payload):
     L = layout()
-    if "terminal_columns" in payload:
+    if "class_flag" in payload:
+        check_class_flags(ctx, L, payload["type"], live_masks(O.lib_type(payload["type"])))
+    elif "terminal_columns" in payload:
         check_cli_terminal(ctx, L, payload["type"], payload["value"], payload["terminal_columns"])
     elif "value" in payload:
         check_word(ctx, L, payload["type"], payload["value"])
